@@ -380,7 +380,9 @@ Definition step (s : state) (l : label) : option state :=
   | Finish t o =>
       let ok :=
         match ph s t with
-        | PEnding o' => outcome_eqb o o' && finish_ready s t o
+        | PEnding o' =>
+            (* a cancelled daemon may still return normally: kopf's runner, not asyncio, decides its outcome *)
+            (outcome_eqb o o' || (is_daemon t && outcome_eqb o OOk)) && finish_ready s t o
         | PCancelW => outcome_eqb o OCancelled
         | PRun =>
             outcome_eqb o OOk &&
